@@ -145,15 +145,14 @@ fn check_list(ctx: &mut Ctx, spans: &[(usize, usize)], text_len: usize, fam: &st
             }
             // consequence: fixing back to front == fixing in input order with offset bookkeeping
             let text: Vec<char> = (0..text_len).map(|i| (b'a' + (i % 26) as u8) as char).collect();
-            let mut sorted = out.clone();
-            sorted.sort_by_key(|l| std::cmp::Reverse(l.span.start));
-            let mut a = text.clone();
-            for l in &sorted {
-                l.suggestions[0].apply(l.span, &mut a);
-            }
-            // reference: build from left to right
+            // reference order: left to right (stable); back to front is its reverse, so that two
+            // zero-width lints at the same position keep their relative order in both
             let mut fwd = out.clone();
             fwd.sort_by_key(|l| (l.span.start, l.span.end));
+            let mut a = text.clone();
+            for l in fwd.iter().rev() {
+                l.suggestions[0].apply(l.span, &mut a);
+            }
             let mut b: Vec<char> = Vec::new();
             let mut pos = 0;
             let mut ok = true;
